@@ -99,6 +99,14 @@ def gen_cases(r, quick, only=None):
                 c["auto_Ks"] = sorted(r2.sample(range(1, T), ne))
             c["boundary_Ks"] = sorted(r2.sample(range(T), ne))
             c["buffer_Ks"] = [(K, r2.choice(c["fmts"])) for K in r2.sample(c["Ks"], 2)]
+            # a job resumed twice; not for the objects whose single resume is a recorded finding
+            ch = set()
+            if not (fam in ("alb", "opes", "pabf", "runave") or c.get("sigtags") or c.get("collapse")
+                    or (fam == "mts" and c.get("it0", 0) % c["sleep_factor"] != 0)):
+                for _ in range(2):
+                    K1 = r2.randrange(0, T - 1)
+                    ch.add((K1, r2.randrange(K1 + 1, T) if r2.random() < 0.8 else K1, r2.choice(c["fmts"])))
+            c["chain_Ks"] = sorted(ch)
             cases.append(c)
     return cases
 
